@@ -13,9 +13,10 @@ CONSTANTS
   TrackQuiet = FALSE
   UnitMs = 1000
   Boot <- BootABC
-  CrashSet <- SetBC
-  StopSet <- SetBC
-  Sync = FALSE
+  CrashSet <- AllNodes
+  StopSet <- AllNodes
+  Sync = TRUE
+  TrackAge = FALSE
 INVARIANTS TypeOK Converged LearnsLive ForgetsDead PeerForgotten PeerLearnt SelfListed PeriodRestored NoDuplicateAddr ChannelSane
 PROPERTIES CallbackIffChange NoResurrection
 ACTION_CONSTRAINT Dump
